@@ -3,4 +3,5 @@ package v1
 var zzRegistry = map[string]func(int){
 	"ZZ_C14Flag": ZZ_C14Flag,
 	"ZZ_C09Http": ZZ_C09Http,
+	"ZZ_C10Http": ZZ_C10Http,
 }
